@@ -57,6 +57,9 @@ def expected_fields(kind, opts, body_sig):
     return f
 
 
+SEEN_SERIALS = set()          # every serial handed out in this process so far: a fresh one must differ from all of them
+
+
 def wellformed_case(kind, opts, body_sig, body_vals, flags, last_serial):
     """construct, check the bytes against the specification layout, parse back and compare"""
     from txdbus import message
@@ -76,8 +79,9 @@ def wellformed_case(kind, opts, body_sig, body_vals, flags, last_serial):
     exp_flags = flags if kind == 1 else 0
     if mtype != kind or ver != 1 or fl != exp_flags:
         return '%s: header says type %d version %d flags %d (expected flags %d)' % (what, mtype, ver, fl, exp_flags), last_serial
-    if serial == 0 or serial == last_serial or serial != m.serial:
-        return '%s: serial %r (previous message had %r, attribute says %r)' % (what, serial, last_serial, m.serial), last_serial
+    if serial == 0 or serial in SEEN_SERIALS or serial != m.serial:
+        return '%s: serial %r is zero, or was used by an earlier message of this process, or differs from the attribute (%r)' % (what, serial, m.serial), last_serial
+    SEEN_SERIALS.add(serial)
     padn = (8 - n % 8) % 8
     if raw[n:n + padn] != b'\0' * padn:
         return '%s: header padding %r' % (what, raw[n:n + padn]), serial
